@@ -88,6 +88,33 @@ theorem array_success_fully_initialised (n : Nat) (elem : Nat → Outcome) (h : 
   · exact ⟨a, b, c⟩
   · exact absurd (h k k1) k2
 
+/-- **Growing collections** (`Vec`, `VecDeque`, `LinkedList`, maps through `from_iter`, tuples and
+    derived structs field by field): the owner that drops what it holds when decoding stops is the
+    array guard with drop glue — same ledger. -/
+theorem vec_is_guarded_loop (n : Nat) (elem : Nat → Outcome) : vecDecode n elem = arrayDecodeInto n elem true := by
+  have : ∀ (fuel count : Nat) (log : Log), vecLoop n elem fuel count log = arrayLoop n elem true fuel count log := by
+    intro fuel
+    induction fuel with
+    | zero => intro count log; rfl
+    | succ fuel ih =>
+      intro count log
+      simp only [vecLoop, arrayLoop, guardDrop, if_true]
+      cases elem count <;> simp [ih]
+  exact this n 0 {}
+
+theorem vec_ledger_balanced (n : Nat) (elem : Nat → Outcome) :
+    let r := vecDecode n elem
+    (r.outcome = .ok ∧ r.log.constructed = List.range n ∧ r.log.handed = List.range n ∧ r.log.dropped = []) ∨
+    (∃ k, k < n ∧ elem k ≠ .ok ∧ r.outcome = elem k ∧ r.log.constructed = List.range k ∧
+      r.log.handed = [] ∧ r.log.dropped = List.range k) := by
+  rw [vec_is_guarded_loop]; exact array_ledger_balanced n elem
+
+theorem vec_exactly_once (n : Nat) (elem : Nat → Outcome) :
+    let r := vecDecode n elem
+    r.log.dropped.Nodup ∧ (∀ i ∈ r.log.dropped, i ∈ r.log.constructed) ∧
+    (∀ i ∈ r.log.constructed, (i ∈ r.log.dropped ∧ i ∉ r.log.handed) ∨ (i ∈ r.log.handed ∧ i ∉ r.log.dropped)) := by
+  rw [vec_is_guarded_loop]; exact array_exactly_once n elem
+
 /-- **Box.** The block is allocated at most once and freed exactly when decoding fails (on success
     it is owned by the returned box); the payload's own ledger is untouched by the box. -/
 theorem box_block_freed_once (sized : Bool) (inner : Ledger.Result) (h1 : inner.log.allocated = [])
